@@ -150,7 +150,11 @@ ExhaustedErr(r, k) == [kind |-> "exhausted", seats |-> <<>>, more |-> k, retry |
 \* what the prologue of the key generation function computes from its
 \* arguments: the `operators` slice, pairIndexes, tripletIndexes (as sets;
 \* their order is the hidden shuffle)
-Classes(ms, q) == [s |-> Singles(ms, q), p |-> Pairs(ms, q), t |-> TripletsUsed(ms, q)]
+\* `eligible` is the specification's own (contract) set of admissible
+\* exclusions; it is kept next to them only so that the invariants need not
+\* recompute it in every state.
+Classes(ms, q) == [s |-> Singles(ms, q), p |-> Pairs(ms, q), t |-> TripletsUsed(ms, q),
+                   eligible |-> AllExclusions(ms, q)]
 
 Init ==
     /\ members \in SeatLists
@@ -306,7 +310,7 @@ DistinctExclusions ==
 \* ... only eligible ones are used (an ineligible combination is never used) ...
 OnlyEligible ==
     (mode = "keygen" /\ order # <<>>) =>
-        LET all == AllExclusions(members, req) IN \A i \in DOMAIN order : order[i] \in all
+        \A i \in DOMAIN order : order[i] \in classes.eligible
 
 \* ... singles before pairs before triplets ...
 ClassOrder ==
@@ -316,7 +320,7 @@ ClassOrder ==
 \* single, pair and triplet has been used, and reports the overshoot
 ExhaustedExact ==
     (mode = "keygen" /\ \E n \in Nodes : res[n].kind \in {"ok", "exhausted"}) =>
-        LET R == Card(AllExclusions(members, req)) IN
+        LET R == Card(classes.eligible) IN
         \A n \in Nodes :
             /\ res[n].kind = "exhausted" => (res[n].retry >= R /\ res[n].more = res[n].retry - R)
             /\ res[n].kind = "ok" => res[n].retry < R
